@@ -222,11 +222,13 @@ def specs(draw, rich=True, with_mutation=None, with_subscription=False, max_obje
     for e in enums:
         vals = []
         for i in range(draw(st.integers(1, 3))):
-            vals.append({"name": "%s_V%d" % (e, i), "value": draw(st.sampled_from(["name", "int", "str"])),
+            # python values of every kind a caller may register: the name itself, ints, strings and (first member only, so that
+            # values stay distinct) a bool - True / False are also what Boolean defaults look like
+            vals.append({"name": "%s_V%d" % (e, i), "value": draw(st.sampled_from(["name", "int", "str"] + (["bool"] if i == 0 else []))),
                          "desc": draw(_DESC), "deprecated": draw(_DEPR)})
         perm = draw(st.permutations(range(3)))   # the same internal value names different members in different schemas
         for i, v in enumerate(vals):
-            v["value"] = {"name": v["name"], "int": 10 + perm[i], "str": "internal-%d" % perm[i]}[v["value"]]
+            v["value"] = {"name": v["name"], "int": 10 + perm[i], "str": "internal-%d" % perm[i], "bool": perm[i] % 2 == 0}[v["value"]]
         types[e] = {"kind": "enum", "name": e, "values": vals, "desc": draw(_DESC)}
     leaf_in = BUILTIN_SCALARS + scalars + enums
     # input objects (may reference each other / themselves through nullable or list positions)
